@@ -447,3 +447,108 @@ Proof.
   intros i T Hi. apply H. apply in_rev in Hi. apply in_seq in Hi. lia.
 Qed.
 Print Assumptions C17_gen_level_loop_range.
+
+(* ================================================================== *)
+(** * 6. Consequences for the model-level theorems                     *)
+(* the U of every tree of level >= 2 of Model.VineData.vine_data_of (the function the replay correspondence evaluates) *)
+Corollary C17_gen_prepare_vine_data_of :
+  forall (v : list (list edge)) (inputs1 : list (nat * nat)) (Dv : list (list edge_data)),
+  vine_data_of v inputs1 = Some Dv ->
+  forall (t : nat) (T : list edge) (DT : list edge_data),
+  t >= 1 ->
+  nth_error v t = Some T ->
+  nth_error Dv t = Some DT ->
+  exists Dp : list edge_data,
+    nth_error Dv (t - 1) = Some Dp /\
+    gen_Tree_prepare_next_tree t CMarg Dp T = Some (map (fun x => stored (ed_U x)) DT).
+Proof.
+  intros v inputs1 Dv H t T DT Ht HT HD. unfold vine_data_of in H.
+  destruct v as [|T1 ts]; [discriminate|].
+  destruct (data_rest 1 _ ts) as [ds|] eqn:Er; [|discriminate]. injection H as <-.
+  destruct t as [|k]; [lia|]. cbn [nth_error] in HT, HD. replace (S k - 1) with k by lia.
+  set (D1 := map (fun p => mk_first (fst p) (snd p)) (combine T1 inputs1)) in *.
+  assert (Hk : k < length (D1 :: ds)).
+  { cbn [length]. apply Nat.lt_lt_succ_r. apply nth_error_Some. rewrite HD. discriminate. }
+  destruct (nth_error (D1 :: ds) k) as [Dp|] eqn:Ep; [|apply nth_error_None in Ep; lia].
+  exists Dp. split; [reflexivity|].
+  apply (C17_gen_prepare_rest ts 1 D1 ds (le_n 1) Er k T DT Dp HT HD Ep).
+Qed.
+Print Assumptions C17_gen_prepare_vine_data_of.
+
+(* the number the generated likelihood denotes, given the oracles of Spec.VineLikProofs (density, h-function, the
+   caller's row, the contents of unwritten np.empty cells of the uni matrices; [ecell] = an unwritten cell of a `values` array) *)
+Section LikValueR.
+  Variables dens hfun : nat -> nat -> R -> R -> R.
+  Variable u : nat -> R.
+  Variable garb : nat -> nat -> nat -> R.
+  Variable ecell : R.
+
+  Fixpoint lval_R (v : lval) : R :=
+    match v with
+    | LZero => 0%R
+    | LEmpty => ecell
+    | LDens c x y => dens (fst c) (snd c) (evalc hfun u garb (snd x)) (evalc hfun u garb (snd y))
+    | LLog w => ln (lval_R w)
+    | LSum l => fold_left Rplus (map lval_R l) 0%R
+    end.
+
+  Lemma lval_R_vine_val (res : list (list lik_edge)) :
+    lval_R (vine_val res) = lik_value dens hfun u garb res.
+  Proof.
+    unfold vine_val, lik_value. cbn [lval_R]. rewrite map_map. f_equal. apply map_ext. intros les.
+    unfold tree_val, tree_value. cbn [lval_R]. rewrite map_map. f_equal.
+  Qed.
+End LikValueR.
+
+(* the generated VineCopula.get_likelihood denotes Spec.VineLikProofs.lik_value of the model's trace: the C17 likelihood
+   theorems (C17_likelihood_sum, _args_ok, _depends_only_on_model_u, ...) are statements about the generated code *)
+Theorem C17_gen_likelihood_value :
+  forall (dens hfun : nat -> nat -> R -> R -> R) (u : nat -> R) (garb : nat -> nat -> nat -> R) (ecell : R)
+         (d : nat) (v : list (list edge)) (res : list (list lik_edge)),
+  d <> 1 ->
+  vine_lik d v = Some res ->
+  exists val : lval,
+    gen_VineCopula_get_likelihood true v (lik_mat 0 d (umat0 d)) = Some val /\
+    lval_R dens hfun u garb ecell val = lik_value dens hfun u garb res.
+Proof.
+  intros dens hfun u garb ecell d v res Hd H. exists (vine_val res). split.
+  - rewrite C17_bridge_VineCopula_get_likelihood by exact Hd. rewrite H. reflexivity.
+  - apply lval_R_vine_val.
+Qed.
+Print Assumptions C17_gen_likelihood_value.
+
+(* F10b stays true of the GENERATED code: on the witness (D-vine on tauA) the value the generated get_likelihood denotes is,
+   for suitable oracles, exactly the content of the never-written cell [1, 0] of the matrix tree 3 reads *)
+Theorem C17_gen_likelihood_depends_on_garbage :
+  exists (v : list (list edge)) (val : lval),
+    train_vine_opt Direct 4 3 (fun _ : nat => tauA) id_order = Some v /\
+    gen_VineCopula_get_likelihood true v (lik_mat 0 4 (umat0 4)) = Some val /\
+    exists (dens hfun : nat -> nat -> R -> R -> R) (u : nat -> R),
+      forall (garb : nat -> nat -> nat -> R) (ecell : R), lval_R dens hfun u garb ecell val = garb 2 1 0.
+Proof.
+  destruct likelihood_depends_on_garbage as (res & H & dens & hfun & u & Hg).
+  destruct (train_vine_opt Direct 4 3 (fun _ : nat => tauA) id_order) as [v|]; [|discriminate].
+  cbn [option_map] in H. injection H as H.
+  exists v, (vine_val res). split; [reflexivity|]. split.
+  - rewrite C17_bridge_VineCopula_get_likelihood by discriminate. rewrite H. reflexivity.
+  - exists dens, hfun, u. intros garb ecell. rewrite lval_R_vine_val. apply Hg.
+Qed.
+Print Assumptions C17_gen_likelihood_depends_on_garbage.
+
+(* ... and the unwritten cells show up in the generated term itself: the reads (tree, row, column) of never-written cells
+   in the value computed by the generated get_likelihood on the witness are those of C17_likelihood_def_before_use_refuted *)
+Fixpoint lval_unwritten (v : lval) : list (nat * nat * nat) :=
+  match v with
+  | LDens c x y =>
+      (match snd (fst x) with None => [(fst c, fst (fst (fst x)), snd (fst (fst x)))] | Some _ => [] end) ++
+      (match snd (fst y) with None => [(fst c, fst (fst (fst y)), snd (fst (fst y)))] | Some _ => [] end)
+  | LLog w => lval_unwritten w
+  | LSum l => flat_map lval_unwritten l
+  | _ => []
+  end.
+
+Example C17_gen_likelihood_reads_unwritten :
+  option_map (fun v => option_map lval_unwritten (gen_VineCopula_get_likelihood true v (lik_mat 0 4 (umat0 4))))
+             (train_vine_opt Direct 4 3 (fun _ : nat => tauA) id_order)
+  = Some (Some [(2, 1, 0); (2, 3, 2)]).
+Proof. vm_compute. reflexivity. Qed.
